@@ -13,7 +13,13 @@ import (
 	"verif/engine/sym"
 )
 
-const repoDir = "/repo"
+// repoDir is /repo for every registered check; GOSYM_REPO redirects background experiments to a snapshot.
+var repoDir = func() string {
+	if d := os.Getenv("GOSYM_REPO"); d != "" {
+		return d
+	}
+	return "/repo"
+}()
 
 var pkgDirs = map[string]string{"proto": "proto", "ch": "", "compress": "compress", "chpool": "chpool"}
 var pkgNames = map[string]string{"proto": "proto", "ch": "ch", "compress": "compress", "chpool": "chpool"}
